@@ -728,6 +728,181 @@ fn builder_episode(c: &mut Ctx, is_bool: bool, grid: Option<(usize, usize, usize
     c.bld.next_episode();
 }
 
+// ------------------------------------------------------------ large-size stage
+
+const BIG_OFFS: [usize; 7] = [0, 1, 7, 8, 63, 64, 65];
+const BIG_CONTENTS: usize = 13;
+
+fn big_lens(rng: &mut Rng) -> Vec<usize> {
+    vec![512, 1023, 1024, 1025, 2047, 2048, 4096 + rng.below(130)]
+}
+
+/// all 0, all 1, a single 0 in all-1 / a single 1 in all-0 in the prefix word, the first block, the middle,
+/// the last block and the suffix word, random
+fn big_content(rng: &mut Rng, kind: usize, n: usize) -> Vec<bool> {
+    let pos = |j: usize| -> usize {
+        match j {
+            0 => rng_free_pos(0, n),
+            1 => rng_free_pos(64 + 411, n),
+            2 => n / 2,
+            3 => n.saturating_sub(64 + 311),
+            _ => n - 1,
+        }
+    };
+    match kind {
+        0 => vec![false; n],
+        1 => vec![true; n],
+        2..=6 => {
+            let mut v = vec![true; n];
+            v[pos(kind - 2)] = false;
+            v
+        }
+        7..=11 => {
+            let mut v = vec![false; n];
+            v[pos(kind - 7)] = true;
+            v
+        }
+        _ => (0..n).map(|_| rng.chance(50)).collect(),
+    }
+}
+
+fn rng_free_pos(p: usize, n: usize) -> usize {
+    p.min(n - 1)
+}
+
+/// lossless run-length encoding of a bit sequence: [[bit, length], ...]
+fn rle(bits: &[u8]) -> Vec<Vec<usize>> {
+    let mut out: Vec<Vec<usize>> = vec![];
+    for b in bits {
+        match out.last_mut() {
+            Some(r) if r[0] == *b as usize => r[1] += 1,
+            _ => out.push(vec![*b as usize, 1]),
+        }
+    }
+    out
+}
+
+/// lossless grouping of an index sequence into maximal stretches of consecutive indices [[start, end), ...]
+fn stretches(idx: impl Iterator<Item = usize>) -> Vec<Vec<usize>> {
+    let mut out: Vec<Vec<usize>> = vec![];
+    for i in idx {
+        match out.last_mut() {
+            Some(r) if r[1] == i => r[1] += 1,
+            _ => out.push(vec![i, i + 1]),
+        }
+    }
+    out
+}
+
+fn bigs_case(c: &mut Ctx, off: usize, n: usize, kind: usize) {
+    let a = big_content(&mut c.rng, kind, n);
+    let sur = surround(&mut c.rng);
+    let extra = [0usize, 1, 9][c.rng.below(3)];
+    let ones = a.iter().filter(|x| **x).count();
+    let fq: Vec<(usize, usize)> = vec![
+        (0, 1),
+        (0, ones),
+        (0, ones + 1),
+        (c.rng.below(n + 1), c.rng.below(ones + 2)),
+        (c.rng.below(n + 1), 1 + c.rng.below(3)),
+    ];
+    let fi = match kind {
+        2..=11 => a.iter().position(|x| *x == (kind >= 7)).unwrap(), // flip the single odd bit away
+        _ => c.rng.below(n),
+    };
+    let oo = BIG_OFFS[c.rng.below(7)];
+    let sh2 = 1 + c.rng.below(7);
+    for run in 1..=2usize {
+        let sh = if run == 1 { 0 } else { sh2 };
+        let (a, sur, fq) = (a.clone(), sur.clone(), fq.clone());
+        c.record("bigs", json!({"off": off, "n": n, "kind": kind, "run": run}), move || {
+            let p = place(&a, off, extra, sh, &sur, run == 2);
+            let bb = p.bb();
+            let other = place(&a, oo, 0, (sh + 3) % 8, &sur, run == 1).bb();
+            let mut x = a.clone();
+            x[fi] = !x[fi];
+            let differing = place(&x, oo, 1, 0, &sur, false).bb();
+            let (na, no, nd) = (NullBuffer::new(bb.clone()), NullBuffer::new(other.clone()), NullBuffer::new(differing.clone()));
+            json!({
+                "op": "bigs", "run": run, "off": off, "n": n, "sh": sh, "kind": kind, "a": b01(&a),
+                "count": bb.count_set_bits(), "cnt2": p.buf.count_set_bits_offset(off, n),
+                "ucnt": UnalignedBitChunk::new(p.bytes(), off, n).count_ones(), "nulls": na.null_count(),
+                "ht": bb.has_true(), "hf": bb.has_false(), "itmax": opt3(bb.iter().max()) as usize,
+                "fq": fq.iter().map(|(s, k)| vec![*s, *k, bb.find_nth_set_bit_position(*s, *k)]).collect::<Vec<_>>(),
+                "eq1": bb == other, "fi": fi, "eq2": bb == differing,
+                "cont1": na.contains(&no), "cont2": na.contains(&nd),
+            })
+        });
+    }
+    c.cases += 1;
+    c.ops.next_episode();
+}
+
+fn bigv_case(c: &mut Ctx, off: usize, n: usize, kind: usize) {
+    let a = big_content(&mut c.rng, kind, n);
+    let kb = [12usize, 1, 0, 4, 9][c.rng.below(5)];
+    let b = big_content(&mut c.rng, kb, n);
+    let k = c.next();
+    let f1: [u8; 2] = table(k % 4);
+    let f2: [u8; 4] = table(k % 16);
+    let ro = BIG_OFFS[c.rng.below(7)];
+    let (sur, sur2, dsur) = (surround(&mut c.rng), surround(&mut c.rng), surround(&mut c.rng));
+    let extra = [0usize, 1, 9][c.rng.below(3)];
+    let shs = [1 + c.rng.below(7), c.rng.below(8)];
+    for run in 1..=2usize {
+        let (sh, shr) = if run == 1 { (0, 0) } else { (shs[0], shs[1]) };
+        let (a, b, sur, sur2, dsur) = (a.clone(), b.clone(), sur.clone(), sur2.clone(), dsur.clone());
+        c.record("bigv", json!({"off": off, "ro": ro, "n": n, "kind": kind, "run": run}), move || {
+            let p = place(&a, off, extra, sh, &sur, run == 2);
+            let r = place(&b, ro, 1, shr, &sur2, run == 2);
+            let (bb, br) = (p.bb(), r.bb());
+            let bytes = p.bytes();
+            let bc = bb.bit_chunks();
+            let u = UnalignedBitChunk::new(bytes, off, n);
+            let pk = |buf: &Buffer| rle(&first_bits(buf.as_slice(), n));
+            // in-place forms on copies of the (byte-shifted) destination
+            let mut mv = MutView::of(bytes, sh);
+            let d0 = mv.bits();
+            apply_bitwise_unary_op(mv.view(), off, n, w1(f1));
+            let ud1 = mv.bits();
+            let mut mv2 = MutView::of(bytes, sh);
+            apply_bitwise_binary_op(mv2.view(), off, r.bytes(), ro, n, w2(f2));
+            let bd1 = mv2.bits();
+            // set_bits into a zeroed range with random surroundings (same destination in both runs)
+            let z = place(&vec![false; n], off, extra, 0, &dsur, false);
+            let mut mv3 = MutView::of(z.bytes(), sh);
+            let sd0 = mv3.bits();
+            let sret = set_bits(mv3.view(), r.bytes(), off, ro, n);
+            let sd1 = mv3.bits();
+            let (na, nb) = (NullBuffer::new(bb.clone()), NullBuffer::new(br.clone()));
+            let un = NullBuffer::union(Some(&na), Some(&nb));
+            json!({
+                "op": "bigv", "run": run, "off": off, "ro": ro, "n": n, "sh": sh, "kind": kind,
+                "a": b01(&a), "b": b01(&b), "f1": f1.to_vec(), "f2": f2.to_vec(),
+                "idx": stretches(bb.set_indices()), "idx32": stretches(bb.set_indices_u32().map(|i| i as usize)),
+                "runs": bb.set_slices().map(|(s, e)| vec![s, e]).collect::<Vec<Vec<usize>>>(),
+                "cl": bc.chunk_len(), "rl": bc.remainder_len(), "chunks_r": rle(&words_bits(bc.iter())),
+                "rem": words_bits(std::iter::once(bc.remainder_bits())),
+                "ulead": u.lead_padding(), "utrail": u.trailing_padding(), "uw_r": rle(&words_bits(u.iter())),
+                "iter_r": rle(&BitIterator::new(bytes, off, n).map(|x| x as u8).collect::<Vec<u8>>()),
+                "not_r": rle(&logical(&!&bb)), "hnot_r": pk(&bitwise_unary_op_helper(&p.buf, off, n, |x| !x)),
+                "un_r": rle(&logical(&BooleanBuffer::from_bitwise_unary_op(bytes, off, n, w1(f1)))),
+                "hun_r": pk(&bitwise_unary_op_helper(&p.buf, off, n, w1(f1))),
+                "sliced_r": pk(&bb.sliced()), "bsl_r": pk(&p.buf.bit_slice(off, n)),
+                "and_r": rle(&logical(&(&bb & &br))), "or_r": rle(&logical(&(&bb | &br))), "xor_r": rle(&logical(&(&bb ^ &br))),
+                "tt_r": rle(&logical(&BooleanBuffer::from_bitwise_binary_op(bytes, off, r.bytes(), ro, n, w2(f2)))),
+                "htt_r": pk(&bitwise_bin_op_helper(&p.buf, off, &r.buf, ro, n, w2(f2))),
+                "d0": d0, "ud1_r": rle(&ud1), "bd1_r": rle(&bd1),
+                "sd0": sd0, "sd1_r": rle(&sd1), "sret": sret,
+                "u_p": un.is_some(), "u_r": un.as_ref().map(|x| rle(&logical(x.inner()))).unwrap_or_default(),
+                "ex_r": rle(&logical(na.expand(2).inner())),
+            })
+        });
+    }
+    c.cases += 1;
+    c.ops.next_episode();
+}
+
 // ---------------------------------------------------------------------- main
 
 /// minimal reproductions of the two known findings (`c19 repro`)
@@ -841,6 +1016,21 @@ fn main() {
         bin_case(&mut c, off, ro, n, 5, 2);
         set_case(&mut c, off, ro, n, 5, true);
         ctor_case(&mut c, n, 5);
+    }
+    // large-size stage: lengths around and beyond the 64-bit word and 16-word block fast paths.  The scalar
+    // primitives walk the whole lengths x offsets x contents product in both tiers; the primitives with long
+    // results walk all of it in the thorough tier and a seeded eighth in the quick tier.
+    let mut kk = 0usize;
+    for n in big_lens(&mut c.rng) {
+        for &off in &BIG_OFFS {
+            for kind in 0..BIG_CONTENTS {
+                bigs_case(&mut c, off, n, kind);
+                kk += 1;
+                if thorough || kk % 8 == (args.seed as usize) % 8 {
+                    bigv_case(&mut c, off, n, kind);
+                }
+            }
+        }
     }
     // builders: packed-range copies over (destination offset = builder length, source offset, length)
     let mut j = 0usize;
